@@ -164,9 +164,11 @@ where
         if let Some(c) = display(p) {
             let ser = catch_unwind(AssertUnwindSafe(|| serde_json::to_string(p)));
             let want = serde_json::to_string(&c).expect("json string");
+            // a serializer that fails must leave nothing behind that changes the next serialisation
+            let _ = catch_unwind(AssertUnwindSafe(|| serde::Serialize::serialize(p, crate::strser::StrOnly { human_readable: true, fail: true })));
             // any Serializer must receive exactly one string: a compact (not human-readable) one as well
             for hr in [true, false] {
-                let r = catch_unwind(AssertUnwindSafe(|| serde::Serialize::serialize(p, crate::strser::StrOnly { human_readable: hr })));
+                let r = catch_unwind(AssertUnwindSafe(|| serde::Serialize::serialize(p, crate::strser::StrOnly { human_readable: hr, fail: false })));
                 let got = match r {
                     Ok(Ok(s)) => json!(s),
                     Ok(Err(e)) => json!({"refused": e.0}),
@@ -1404,6 +1406,25 @@ pub fn finish_pool(ctx: &mut Ctx) {
 pub fn run_serde_ns(ctx: &mut Ctx, case: &Value) {
     if !ctx.serde {
         return;
+    }
+    // values of other kinds handed to Deserialize directly (bytes that spell a valid PURL, numbers, bool, unit, a sequence)
+    {
+        use serde::de::value::{BoolDeserializer, BorrowedBytesDeserializer, BytesDeserializer, Error as DeErr, SeqDeserializer, U64Deserializer, UnitDeserializer};
+        use serde::Deserialize;
+        let bytes = b"pkg:cargo/serde@1.0.0";
+        let refused = [
+            GenericPurl::<String>::deserialize(BytesDeserializer::<DeErr>::new(bytes)).is_err(),
+            GenericPurl::<String>::deserialize(BorrowedBytesDeserializer::<DeErr>::new(bytes)).is_err(),
+            GenericPurl::<String>::deserialize(U64Deserializer::<DeErr>::new(7)).is_err(),
+            GenericPurl::<String>::deserialize(BoolDeserializer::<DeErr>::new(true)).is_err(),
+            GenericPurl::<String>::deserialize(UnitDeserializer::<DeErr>::new()).is_err(),
+            GenericPurl::<String>::deserialize(SeqDeserializer::<_, DeErr>::new(vec!["pkg:cargo/serde".to_owned()].into_iter())).is_err(),
+        ];
+        ctx.check("C16", "bytes, numbers, booleans, unit and sequences are refused by Deserialize", "String", refused.iter().all(|b| *b), &json!([true, true, true, true, true, true]), &json!(refused));
+        let ok = GenericPurl::<String>::deserialize(serde::de::value::StrDeserializer::<DeErr>::new("pkg:cargo/serde@1.0.0")).is_ok()
+            && GenericPurl::<String>::deserialize(serde::de::value::StringDeserializer::<DeErr>::new("pkg:cargo/serde@1.0.0".to_owned())).is_ok()
+            && GenericPurl::<String>::deserialize(serde::de::value::BorrowedStrDeserializer::<DeErr>::new("pkg:cargo/serde@1.0.0")).is_ok();
+        ctx.check("C16", "transient, owned and borrowed string values are accepted by Deserialize", "String", ok, &json!(true), &json!(ok));
     }
     for t in case["texts"].as_array().cloned().unwrap_or_default() {
         let text = from_cps(&t);
